@@ -195,6 +195,8 @@ def install_varint_contracts(I, limit_bits=None):
 
         def read_model(I_, cls, file_object, _raw=raw_read):
             rd = peek_reader(file_object)
+            if rd is not None:
+                rd.skip_empty(I_)
             if rd is not None and rd.rest and isinstance(rd.rest[0], Blob) and rd.rest[0].key[:2] == ('enc', 'VarInt'):
                 atom = rd.rest.pop(0)
                 v = atom.decoded
@@ -216,6 +218,8 @@ def _simple_var_type(tname, length_of, check=None):
     def make_read(raw_read):
         def read_model(I_, file_object):
             rd = peek_reader(file_object)
+            if rd is not None:
+                rd.skip_empty(I_)
             if rd is not None and rd.rest and isinstance(rd.rest[0], Blob) and rd.rest[0].key[:2] == ('enc', tname):
                 return rd.rest.pop(0).decoded
             return I_.call_function(raw_read, [file_object], {})
